@@ -213,8 +213,12 @@ class LeafState:
         self.struct = struct
 
 
-def mk_param_net(E, name, leaves):
-    o = Obj(PARAMNET, {"$leaves": list(leaves)}, name=name)
+def mk_param_net(E, name, leaves, other=()):
+    """leaves: the nnx.Param leaves; other: NON-Param variables of the module (BatchNorm statistics, the action_scale /
+    action_bias of the tanh policy heads): part of nnx.state(m) / nnx.split(m), not selected by the nnx.Param filter.
+    flax orders a State by variable path, so where the non-Param variables sit relative to the Params is not fixed:
+    modelled FIRST (the position they have for the tanh policy heads: 'action_bias' < 'policy_net')."""
+    o = Obj(PARAMNET, {"$leaves": list(leaves), "$other": list(other)}, name=name)
     E.register(o)
     return o
 
@@ -223,24 +227,49 @@ def _is_paramnet(m):
     return isinstance(m, Obj) and m.cls == PARAMNET
 
 
+def _param_filter(filters):
+    if not filters:
+        return False
+    f = filters[0]
+    if len(filters) == 1 and ((isinstance(f, C.Opaque) and f.tag == "nnx.Param") or (isinstance(f, Builtin) and f.name == "flax.nnx.Param")):
+        return True
+    raise Unsupported(f"nnx filter {filters!r}")
+
+
 def _state(E, m=None, *filters, **k):
     if _is_paramnet(m):
-        return LeafState(m.fields["$leaves"], ("paramnet", m.name, len(m.fields["$leaves"])))
+        other = list(m.fields.get("$other", []))
+        if _param_filter(filters) or not other:
+            return LeafState(m.fields["$leaves"], ("paramnet", m.name, len(m.fields["$leaves"])))
+        return LeafState(other + list(m.fields["$leaves"]), ("paramnet-all", m.name, len(other) + len(m.fields["$leaves"])))
+    return NotImplemented
+
+
+def _split(E, m=None, *filters, **k):
+    if _is_paramnet(m):
+        return (C.Opaque("graphdef", m), _state(E, m, *filters))
     return NotImplemented
 
 
 def _update(E, m=None, state=None, *a, **k):
     if _is_paramnet(m):
-        if not isinstance(state, LeafState) or len(state.leaves) != len(m.fields["$leaves"]):
+        nl, other = len(m.fields["$leaves"]), list(m.fields.get("$other", []))
+        if not isinstance(state, LeafState) or len(state.leaves) not in (nl, nl + len(other)):
             raise PyRaise("ValueError", "nnx.update: state does not match the module structure")
         E.log_write(m.name, "$leaves")
-        m.fields["$leaves"] = list(state.leaves)
+        if len(state.leaves) == nl and state.struct[0] == "paramnet":
+            m.fields["$leaves"] = list(state.leaves)
+        else:
+            E.log_write(m.name, "$other")
+            m.fields["$other"] = list(state.leaves[:len(other)])
+            m.fields["$leaves"] = list(state.leaves[len(other):])
         return None
     return NotImplemented
 
 
 _wrap("flax.nnx.state", _state)
 _wrap("flax.nnx.update", _update)
+_wrap("flax.nnx.split", _split)
 
 
 def _py_leaves(E, t):
@@ -280,7 +309,7 @@ def _tree_structure(E, t=None, *a, **k):
 
 
 def _tree_unflatten(E, treedef=None, leaves=None, *a, **k):
-    if isinstance(treedef, Opaque) and treedef.tag == "treedef" and isinstance(treedef.payload, tuple) and treedef.payload[0] == "paramnet":
+    if isinstance(treedef, Opaque) and treedef.tag == "treedef" and isinstance(treedef.payload, tuple) and treedef.payload[0] in ("paramnet", "paramnet-all"):
         xs = list(E.iterate(leaves))
         if len(xs) != treedef.payload[2]:
             raise PyRaise("ValueError", "tree_unflatten: wrong number of leaves")
